@@ -115,8 +115,8 @@ def build():
 
     # ---------------- send_connection_batch ----------------
     u.add(u.fn(PH, 'send_connection_batch', sub='route', ret='r', erase_async=True, props=(),
-               post_rewrite=[('std::io::Result<()>', 'Result<(), IoError>', 1), ('&crate::net::BatchUdpSocket', '&BatchUdpSocket', 1), ('srtla_core::utils::now_ms()', 'now_ms()', 1),
-                             ('crate::net::send_all_datagrams(', 'send_all_datagrams(', 1),
+               post_rewrite=[('std::io::Result<()>', 'Result<(), IoError>', 1), 
+                             
                              (re.compile(r'let bufs: Vec<&\[u8\]> = batch\.iter\(\)\.map\(\|\(data, _, _\)\| data\.as_slice\(\)\)\.collect\(\);'), 'let bufs: Vec<&[u8]> = batch_slices(&batch);', 1)],
                requires=['send_link_wf(old(conn))'],
                ensures=[
@@ -210,7 +210,7 @@ pub fn flush_has_work(connections: &[SrtlaConnection], now: u64) -> (r: bool)
 ''' % pred)
     u.add(u.fn(PH, 'flush_all_batches', sub='route', erase_async=True, props=(),
                pre_rewrite=[(re.compile(r'let has_work = connections\s*\.iter\(\)\s*\.any\(\|c\| .*?\);', re.S), 'let has_work = flush_has_work(connections, now);', 1)],
-               post_rewrite=[('&io.socket', 'io.sock()', 1), ('srtla_core::utils::now_ms()', 'now_ms()', 1)],
+               post_rewrite=[('&io.socket', 'io.sock()', 1), ],
                requires=['route_wf(old(connections)@)', 'sizes_ok(old(connections)@)'],
                ensures=[
                    'final(connections).len() == old(connections).len()', 'route_wf(final(connections)@)',
@@ -227,9 +227,9 @@ pub fn flush_has_work(connections: &[SrtlaConnection], now: u64) -> (r: bool)
 
     # ---------------- handle_srt_packet ----------------
     u.add(u.fn(PH, 'handle_srt_packet', sub='route', erase_async=True, props=(),
-               post_rewrite=[('Result<(usize, SocketAddr), std::io::Error>', 'Result<(usize, SocketAddr), IoError>', 1), ('srtla_core::utils::now_ms()', 'now_ms()', 1),
-                             ('srtla_protocol::get_srt_sequence_number(', 'get_srt_sequence_number(', 1), ('srtla_protocol::is_srt_data_retransmit(', 'is_srt_data_retransmit(', 1),
-                             ('srtla_core::priority::select_best_quality_idx(', 'select_best_quality_idx(', 1), ('&srtla_core::priority::CriticalWindow', '&CriticalWindow', 1),
+               post_rewrite=[('Result<(usize, SocketAddr), std::io::Error>', 'Result<(usize, SocketAddr), IoError>', 1), 
+                             
+                             
                              ('Err(e) => (),', 'Err(_e) => (),', 1)],
                requires=['route_wf(old(connections)@)', 'sizes_ok(old(connections)@)', 'counters_ok(old(connections)@)', 'res is Ok ==> res->Ok_0.0 <= old(recv_buf).len()'],
                ensures=['final(connections).len() == old(connections).len()', 'route_wf(final(connections)@)',
